@@ -1078,6 +1078,52 @@ def check_molecular(inp):
                             return fails
     return fails
 
+
+# ------------------------------------------------------------------------------------------- C13
+
+@check('compress')
+def check_compress(inp):
+    mode = inp['mode']; tol = float(inp['tol'])
+    x = _obj_from_json(inp['x'], 'mps')
+    L = len(x.A)
+    old = _dense(x, 'mps')
+    old_dims = list(x.bond_dims)
+    n0 = float(np.linalg.norm(old))
+    if n0 == 0:
+        return []
+    old_q = [x.qD[0].copy(), x.qD[-1].copy()]
+    try:
+        nrm, scale = x.compress(tol, mode=mode)
+    except Exception as e:
+        return [f'compress raised {type(e).__name__}: {e}']
+    fails = []
+    if abs(nrm - n0) > TOL * max(1.0, n0):
+        fails.append(f'returned norm {nrm} != norm of the original state {n0}')
+    lo = np.sqrt(max(0.0, 1 - L * tol))
+    if not (lo - 1e-9 <= scale <= 1 + 1e-9):
+        fails.append(f'scale {scale} outside [sqrt(1 - L tol), 1] = [{lo}, 1]')
+    fails += _invariant(x, 'mps', 'result')
+    if fails:
+        return fails
+    new = _dense(x, 'mps')
+    if abs(np.linalg.norm(new) - 1) > 1e-8:
+        fails.append('compressed state is not normalised')
+    for i in range(L):
+        fails += _iso_fail(x.A[i], 'mps', mode, i)
+    if any(a > b for a, b in zip(x.bond_dims, old_dims)):
+        fails.append(f'bond dimensions grew {old_dims} -> {x.bond_dims}')
+    err = float(np.linalg.norm(old - nrm * scale * new))
+    expect = n0 * np.sqrt(max(0.0, 1 - scale ** 2))
+    if abs(err - expect) > 1e-7 * max(1.0, n0):
+        fails.append(f'error {err} differs from nrm sqrt(1 - scale^2) = {expect}')
+    if err > n0 * np.sqrt(L * tol) + 1e-8 * max(1.0, n0):
+        fails.append(f'error {err} exceeds nrm sqrt(L tol) = {n0 * np.sqrt(L * tol)}')
+    if tol == 0 and err > 1e-8 * max(1.0, n0):
+        fails.append('tol = 0 but the compression is not exact')
+    if not np.array_equal(x.qD[0], old_q[0]) or not np.array_equal(x.qD[-1], old_q[1]):
+        fails.append('boundary quantum numbers changed')
+    return fails
+
 # -------------------------------------------------------------------------------------------
 
 def main():
